@@ -64,8 +64,8 @@ struct VmSharedReadonly {
 impl Drop for VmSharedReadonly {
     fn drop(&mut self) {
         // the program's string constants are owned by this block (they are not in any thread's heap)
-        for s in self.static_strings.drain(..) {
-            let _ = unsafe { Box::from_raw(s) };
+        for s in &self.static_strings {
+            let _ = unsafe { Box::from_raw(*s) };
         }
     }
 }
